@@ -78,6 +78,9 @@ pub fn run(thorough: bool) -> Vec<Part> {
             combos.push((l, n));
         }
     }
+    combos.push((131072, 60000));
+    combos.push((70000, 70000));
+    combos.push((70000, 69999));
     part.set("limit_length_pairs", json!(combos.len()));
     let tail = b"GET /tail HTTP/1.1\r\n\r\n".to_vec();
     let mk_stream = |l: usize, n: u64| -> (Vec<u8>, usize) {
